@@ -5,6 +5,24 @@ import json, subprocess
 HOOK_COMMITS = ["9b212f4"]
 
 CLAIMED = {
+ "C01": dict(level="exploration", technique="online reference-model monitor: every real Query outcome is compared with an independent evaluator of the documented rules (set of outcomes over all object-member orders); disagreements attributed by named deviation switches",
+   text="Random (path, document, decoding, options) triples over every node kind are executed by the real Query and by an independently written stream evaluator of the documented lax/strict rules; the observed items and error class must be one of the outcomes the rules allow (member orders enumerated). Outcomes the documentation does not pin are skipped and counted. Exploration of generated cases, not a proof.",
+   note="Trusted base: the reference evaluator in /verif/internal/model (shares no code with path/exec). Numbers compared by exact value; integer quotient may be truncated or exact."),
+ "C06": dict(level="exploration", technique="relational monitor over the five entry points executed on identical inputs (plus the silent Query as 'complete evaluation')",
+   text="For each generated (path, document, options) all five entry points are executed on the same values and the stated relations (First vs Query, Exists vs Query, strict Exists never hiding an error, Match's single-boolean rule, ExistsOrMatch dispatch) are asserted on the observed outcomes.",
+   note="Member order is open: paths that expand object members get single-member objects so that the executions are comparable; otherwise order-dependent relations are skipped and counted."),
+ "C08": dict(level="exploration", technique="relational monitor (verbose vs WithSilent run of every entry point) + reference model for items-before-failure + H1/H2 hook invariant on the verbose flag",
+   text="Every entry point is executed with and without WithSilent on identical inputs; the relations of the property (no ErrVerbose under silent, success unchanged, suppressible failure becomes items-before-failure / NULL, non-suppressible errors unchanged and within the closed list) are asserted, and the hooks assert that the verbose flag is restored at every step exit and call end.",
+   note="Closed list of non-suppressible errors taken from the property statement; items-before-failure from the reference model (skipped where unspecified)."),
+ "C09": dict(level="exploration", technique="relational monitor (P S vs P then $ S at every split point; variable/literal heads) + H1/H2 hook invariants on @, last, $, base object, structural flag",
+   text="Generated chains are split at every step boundary; the concatenation relation is asserted on real executions, and the hooks assert on every evaluation step that the context (current item, innermost array size, root, keyvalue base object, structural-error flag) is what it was on entry, and quiescent at the end of each call.",
+   note="S is root-independent; strict prefixes with .** excluded; keyvalue ids masked; single-member objects where member order would be exposed."),
+ "C10": dict(level="exploration", technique="relational monitor: filter result vs unfiltered items vs per-item predicate-check executions (C[@:=$] rewritten on the abstract tree); strict consecutive filters vs conjunction",
+   text="For generated prefixes and conditions of every predicate kind, Query(P ?(C)) must equal the items of P (one-level lax unwrap) whose predicate check C[@:=$] returns [true], in order, unaltered; a hard error on a reached item must abort; strict P ?(C1) ?(C2) must equal P ?(C1 && C2).",
+   note="Rewriting is done by the harness on its own abstract syntax; items compared by value."),
+ "C11": dict(level="exploration", technique="truth-table enumeration with constant T/F/U/E operands + law monitor on observed operand outcomes (relational)",
+   text="All operand combinations of ! && || is-unknown over {true,false,unknown,hard error} (several spellings each) are executed as predicate checks and inside filters, lax/strict, silent/verbose, and compared with the Kleene tables; for random conditions p,q the operands' outcomes are observed first and the compounds (both orders, double negation, De Morgan, is unknown, exists) compared with the tables; Query/Match correspondence checked on each.",
+   note="An error operand on the right of a deciding left operand may be short-circuited or reported; lax exists on a failing operand may be unknown or false unless an item precedes the failure."),
  "C18": dict(level="exploration", technique="round-trip (inverse-function) monitors on values built from components + hostile-input contract monitor on UnmarshalJSON, recover()-guarded",
    text="Values of the five datetime types are built from known components over a boundary grid and seeded random draws; the real String/ParseTime/MarshalJSON/UnmarshalJSON/.string() and zone conversions are executed and the inverse-function relations and the expected ISO text (computed from the components, not from the library) are asserted on every observed result; UnmarshalJSON is driven with every JSON token kind, short strings and truncated encodings and must never panic.",
    note="Equality = same Go type, instant and offset. UnmarshalJSON is driven with syntactically valid JSON only; JSON null may be rejected or ignored. Zone data: Go's embedded time/tzdata."),
